@@ -62,6 +62,8 @@ def run(ck: Check):
             if bad:
                 ck.violation(f"minimize with a temp dir that already held {sorted(stale)} (verdicts {v}): " + "; ".join(bad[:3]),
                              {"stale": sorted(stale), "verdicts": v, "listing": sorted(got)})
+    from envmatrix import run_matrix
+    run_matrix(ck, ("C12",))
     from boundaries import long_run_recurrence
     long_run_recurrence(ck, ck.tier == "quick")
     ex.diff()
